@@ -564,6 +564,35 @@ func runWorld(res *core.Result, r *rand.Rand, wire bool, tier core.Tier) {
 		}
 		res.Case("metamorphic:"+string(src)+":"+n, true)
 	}
+	// (2b) The same through the DNS handler: a name answered from a stored mapping is asked, the mapping is changed
+	// to another router, the name is asked again (same spelling), the mapping is removed, asked again.
+	for _, n := range w.names {
+		if _, src := w.rc.refLookup(n); src != "mapping" {
+			continue
+		}
+		orig := w.rc.mappings[n]
+		if !w.checkQuery(res, n+".", mdns.TypeAAAA, mdns.ClassINET) {
+			return
+		}
+		next := routable(r)
+		w.rc.mappings[n] = next
+		_ = w.store.SaveMapping(n, next)
+		if !w.checkQuery(res, n+".", mdns.TypeAAAA, mdns.ClassINET) || !w.checkQuery(res, n+".", mdns.TypeANY, mdns.ClassINET) {
+			return
+		}
+		delete(w.rc.mappings, n)
+		_ = w.store.DeleteMapping(n)
+		if !w.checkQuery(res, n+".", mdns.TypeAAAA, mdns.ClassINET) {
+			return
+		}
+		w.rc.mappings[n] = orig
+		_ = w.store.SaveMapping(n, orig)
+		if !w.checkQuery(res, n+".", mdns.TypeAAAA, mdns.ClassINET) {
+			return
+		}
+		res.Case("remap-through-handler:"+n, true)
+		res.Count("mappings_changed_between_queries", 1)
+	}
 	// (3) Questions through ServeDNS.
 	for _, n := range w.names {
 		for vi, v := range caseVariants(r, n) {
